@@ -32,6 +32,9 @@ pub enum Case {
         #[serde(default)]
         prune: bool,
     },
+    /// data-sized dimensions (520..1300): chains of more than 1024 decisions, judged by evaluation only
+    /// (kind 0 inf_norm, 1 class_characterization, 2 from_poly on a hyperrectangle)
+    Huge { kind: u8, dim: u16, sel: u16, lo: i8, width: u8, probes: Vec<(u16, i8)> },
 }
 
 fn in_spec(dim: usize) -> impl Strategy<Value = InSpec> {
@@ -101,7 +104,9 @@ fn strategy(tier: Tier) -> BoxedStrategy<Case> {
             }
             Case::Slice { t, refp, points, prune }
         });
-    prop_oneof![6 => schema, 2 => from_poly, 2 => slice].boxed()
+    let huge = (0u8..3, 520u16..=1300, any::<u16>(), -8i8..=8, any::<u8>(), proptest::collection::vec((any::<u16>(), -4i8..=4), 2..6))
+        .prop_map(|(kind, dim, sel, lo, width, probes)| Case::Huge { kind, dim, sel, lo, width, probes });
+    prop_oneof![180 => schema, 60 => from_poly, 60 => slice, 1 => huge].boxed()
 }
 
 fn report(ctx: &mut Ctx, out: &crate::pwl::CompareOut) {
@@ -111,7 +116,90 @@ fn report(ctx: &mut Ctx, out: &crate::pwl::CompareOut) {
     ctx.count("cells_fulldim", out.stats.fulldim_lhs as u64);
 }
 
+/// Predefined trees in data-sized dimensions.  A cell-by-cell comparison is out of reach there (and adds nothing:
+/// the structure is the one judged exhaustively in small dimensions); what changes with the dimension is the
+/// length of the decision chain, so the tree is evaluated at probe inputs and compared with the definition.
+fn run_huge(kind: u8, dim: usize, sel: u16, lo: i8, width: u8, probes: &[(u16, i8)], ctx: &mut Ctx) -> CaseResult {
+    use affinitree::distill::schema;
+    use affinitree::linalg::affine::{AffFunc, Polytope};
+    let dim = dim.clamp(520, 1300);
+    let lo = lo as f64 / 4.0;
+    let hi = lo + (1 + width % 16) as f64 / 4.0;
+    let clazz = pick(sel, dim);
+    ctx.class("huge_dimension_evaluation_only");
+    let (tree, name): (AffTree<2>, String) = match kind % 3 {
+        0 => (must("inf_norm", || schema::inf_norm(dim, Some(lo), Some(hi)))?, format!("inf_norm({dim}, {lo}, {hi})")),
+        1 => (must("class_characterization", || schema::class_characterization(dim, clazz))?, format!("class_characterization({dim}, {clazz})")),
+        _ => {
+            let intervals: Vec<(f64, f64)> = vec![(lo, hi); dim];
+            let poly = must("hyperrectangle", || Polytope::hyperrectangle(&intervals))?;
+            let t = must("from_poly", || AffTree::<2>::from_poly(poly, AffFunc::constant(dim, 1.0), Some(&AffFunc::constant(dim, 0.0))))?
+                .map_err(|e| Failure::new(format!("from_poly: {e}")))?;
+            (t, format!("from_poly(hyperrectangle({dim}; {lo}, {hi}), 1, 0)"))
+        }
+    };
+    ctx.class_if(tree.tree.depth() > 1024, "path_longer_than_1024");
+    // probe inputs: the all-inside / class-maximal point, then one component moved
+    let mid = (lo + hi) / 2.0;
+    let mut inputs: Vec<Vec<f64>> = Vec::new();
+    let base: Vec<f64> = if kind % 3 == 1 { (0..dim).map(|j| if j == clazz { 1.0 } else { 0.0 }).collect() } else { vec![mid; dim] };
+    inputs.push(base.clone());
+    for (j, d) in probes.iter().take(6) {
+        let mut x = base.clone();
+        let jj = if *j % 3 == 0 { dim - 1 - (*j as usize / 3) % 4 } else { pick(*j, dim) };
+        let delta = *d as f64 / 4.0;
+        if kind % 3 == 1 {
+            x[jj] = 1.0 + delta; // a tie for delta = 0, a larger / smaller component otherwise
+        } else {
+            x[jj] = match d.rem_euclid(4) {
+                0 => lo,
+                1 => hi,
+                2 => hi + 0.25,
+                _ => lo - 0.25,
+            };
+        }
+        inputs.push(x);
+    }
+    for x in &inputs {
+        let expect: f64 = match kind % 3 {
+            1 => {
+                let m = x.iter().cloned().fold(f64::NEG_INFINITY, f64::max);
+                if x[clazz] >= m {
+                    1.0
+                } else {
+                    0.0
+                }
+            }
+            _ => {
+                if x.iter().all(|v| *v >= lo && *v <= hi) {
+                    1.0
+                } else {
+                    0.0
+                }
+            }
+        };
+        let got = must("evaluate", || tree.evaluate(&Array1::from_vec(x.clone())))?;
+        let ok = match &got {
+            Some(v) => v.len() == 1 && v[0] == expect,
+            None => false,
+        };
+        if !ok {
+            let differing: Vec<(usize, f64)> = x.iter().enumerate().filter(|(j, v)| **v != base[*j]).map(|(j, v)| (j, *v)).collect();
+            return Err(Failure::new(format!(
+                "{name}: evaluate returned {:?}, the definition gives [{expect}] (input = base point with components {differing:?} changed)",
+                got.map(|v| v.to_vec())
+            )));
+        }
+    }
+    ctx.count("huge_inputs", inputs.len() as u64);
+    ctx.set_nontrivial(inputs.len() >= 3);
+    Ok(())
+}
+
 pub fn run_case(c: &Case, ctx: &mut Ctx) -> CaseResult {
+    if let Case::Huge { kind, dim, sel, lo, width, probes } = c {
+        return run_huge(*kind, *dim as usize, *sel, *lo, *width, probes, ctx);
+    }
     match c {
         Case::Schema { dim, spec, inputs } => {
             ctx.class(spec.name());
@@ -214,6 +302,7 @@ pub fn run_case(c: &Case, ctx: &mut Ctx) -> CaseResult {
             ctx.set_nontrivial(tr.num_decisions() >= 1 && k < n);
             Ok(())
         }
+        Case::Huge { .. } => unreachable!("handled above"),
     }
 }
 
